@@ -113,7 +113,7 @@ theorem skeleton_agrees :
     Gen.Skel.skeleton "Outbound.use_connection" = skel_use_connection ∧
     Gen.Skel.skeleton "Outbound.stop_using_connection" = skel_stop_using_connection ∧
     Gen.Skel.skeleton "Outbound.resumeProducing" = skel_resumeProducing := by
-  decide
+  decide +kernel
 
 /-! ### the hypotheses are met by concrete, non-trivial schedules -/
 
